@@ -148,7 +148,9 @@ def observe_program(B, rec_xs, rec_ys, eqs, cases, rnd, res, stage, sp, f, space
             if math.isfinite(fx) and math.isfinite(cy) and fx + cy < ip - SLACK * max(1, abs(ip), abs(fx), abs(cy)):
                 bad.append('fenchel-young-inequality')
             if iseq and math.isfinite(fx) and not math.isfinite(cy):
-                cy = fu.value_near(fc, B, fu.frv(yq), anchors)[0]   # y on the boundary of dom f*: rounding may flip it
+                # y on the boundary of dom f*: rounding may flip it (not at exactly dyadic points: there the
+                # evaluation is exact and a documented boundary convention has to hold as it stands)
+                cy = fu.value_near(fc, B, fu.frv(yq), anchors, hold_dyadic=True)[0]
             if iseq and not (math.isfinite(fx + cy) and close(fx + cy, ip, max(abs(fx), abs(cy)))):
                 bad.append('fenchel-young-equality')
             for cl in bad:
@@ -175,7 +177,7 @@ def observe_program(B, rec_xs, rec_ys, eqs, cases, rnd, res, stage, sp, f, space
                     if err:
                         continue
                     if not math.isfinite(cy):
-                        cy = fu.value_near(fc, B, fu.flat(g).tolist(), anchors)[0]
+                        cy = fu.value_near(fc, B, fu.flat(g).tolist(), anchors, hold_dyadic=True)[0]
                     ip = float(x.inner(g))
                 except Exception:
                     continue
@@ -252,8 +254,10 @@ def replay_program(arg):
     rnd = _rnd(json.dumps(f, sort_keys=True) + rec['space'], seed)
     variants = [0] if (quick or rec['k'] > 1) else [0, 1]
     for variant in variants:
+        # the n points are laid out on 1, 2 or 3 axes, rotating over the programs (and over the variants)
+        layout = (rec.get('idx', 0) + variant + seed) % 4
         try:
-            B = fu.Built(sp, f, variant)
+            B = fu.Built(sp, f, variant, layout=layout)
         except (NotImplementedError, fu.Unbuildable):
             res['noconj'] += 1
             return res
@@ -266,8 +270,13 @@ def replay_program(arg):
         observe_program(B, [t['x'] for t in rec['xs']], [t['y'] for t in rec['ys']], rec['eqs'],
                         sorted(rec['cases'], key=lambda c: json.dumps([c['sig'], c['x']])), rnd, res,
                         'replay', sp, f, rec['space'], False, 12 if quick else 40)
-        for _, d in res['viol'][n0:]:
+        if variant == 0 and (not quick or rec['k'] <= 1):
+            walk_chain(B, [t['x'] for t in rec['xs']][:4 if quick else 8], [t['y'] for t in rec['ys']][:4 if quick else 8],
+                       res, 'replay', sp, f, rec['space'])
+        for s, d in res['viol'][n0:]:
             d['variant'] = variant
+            d['layout'] = layout
+            s['layout'] = 'one-axis' if B.layout == 0 else 'multi-axis'
         # ---- exported expectations: f*(y) from the witness search of TLC, f(x)
         if variant == 0:
             try:
@@ -281,7 +290,8 @@ def replay_program(arg):
                 if err:
                     break
                 if not fu.matches(v, t['cy']) and not fu.matches(fu.value_near(
-                        fc, B, fu.frv(t['y']), [fu.frv(s['y']) for s in rec['ys'] if fu.known(s['cy'])])[0], t['cy']):
+                        fc, B, fu.frv(t['y']), [fu.frv(s['y']) for s in rec['ys'] if fu.known(s['cy'])], hold_dyadic=True)[0],
+                        t['cy']):
                     res['viol'].append((fu.signature(sp, f, 'conjugate-value'),
                                         {'stage': 'replay', 'sp': sp, 'f': f, 'y': t['y'], 'expected_from_TLC': t['cy'],
                                          'observed': v, 'variant': 0}))
@@ -305,7 +315,10 @@ def driver_programs(quick, rnd):
                   mkf('IndZero', 0, 1), mkf('Quad', 0, 1, v=[2] * N, u=alt(1, -H)), mkf('Quad', 0, 1, u=alt(1, -H))]
         if kind != 'pspace':
             leaves += [mkf('Huber', (1, 2)), mkf('Huber', 2), mkf('KL', v=alt(1, 2)), mkf('KLcc', v=alt(1, 2)), mkf('KL'),
-                       mkf('KLcc')]
+                       mkf('KLcc'),
+                       # boundary data: priors with ZERO entries (0 log 0 = 0), gamma = 0, degenerate box
+                       mkf('KL', v=alt(0, 2)), mkf('KLcc', v=alt(0, 2)), mkf('KL', v=alt(1, 0)), mkf('Huber', 0),
+                       mkf('IndBox', 1, 1)]
         if m == 1:
             leaves += [mkf('Linf'), mkf('IndBall1'), mkf('Quad', 0, 0, v=alt(1, H))]
         if kind == 'power':
@@ -338,14 +351,15 @@ def driver_programs(quick, rnd):
 
 
 def driver_program(arg):
-    spd, f, seed, npts = arg
+    spd, f, seed, npts = arg[:4]
+    idx = arg[4] if len(arg) > 4 else 0
     kind, m, n, W = spd
     sp = fu.sp_desc(kind, m, n, W)
     N = m * n
     res = _new_res()
     rnd = _rnd(json.dumps(f, sort_keys=True) + kind + str(N), seed)
     try:
-        B = fu.Built(sp, f, 0)
+        B = fu.Built(sp, f, 0, layout=(idx + seed) % 4)
     except (NotImplementedError, fu.Unbuildable):
         res['noconj'] += 1
         return res
@@ -372,6 +386,198 @@ def driver_program(arg):
                     N <= 3, 6)
     return res
 
+
+
+# ------------------------------------------------------------------ derived-of-derived: the conjugate chain
+def _rel(res, sigd, det, cl, mode, lhs, rhs):
+    res['counts'].append(([sigd.get('ops'), sigd.get('option', ''), cl, det.get('node'), str(det.get('at'))], True))
+    if math.isfinite(lhs) and math.isfinite(rhs):
+        ok = (lhs >= rhs - SLACK * max(1.0, abs(lhs), abs(rhs))) if mode == 'ge' else close(lhs, rhs)
+    else:
+        ok = (lhs == rhs) if mode == 'eq' else (lhs >= rhs)
+    d = dict(det, observed={'lhs': lhs, 'rhs': rhs})
+    if not ok:
+        res['viol'].append((dict(sigd, clause=cl, node=det.get('node', '')), d))
+    ev = fu.rel_event(cl, mode, lhs, rhs)
+    if ev is not None:
+        res['events'].append((ev, d))
+
+
+def chain_nodes(func, depth=4):
+    """f, f*, f**, f*** as the library builds them (stops where a conjugate is not offered)."""
+    nodes = [func]
+    for _ in range(depth - 1):
+        try:
+            nodes.append(nodes[-1].convex_conj)
+        except Exception:
+            break
+    return nodes
+
+
+def _call(fn, z):
+    try:
+        v = float(fn(z))
+        return v
+    except Exception:
+        return None
+
+
+def _prox(fn, s, z):
+    try:
+        return fn.proximal(s)(z)
+    except Exception:
+        return None
+
+
+def chain_relations(nodes, refs, xs, ys, inner, res, sigd, det0, names=('f', 'f*', 'f**', 'f***')):
+    """At EVERY node of the chain: values / proximals against the reference of that node (refs[k], may be None),
+    Fenchel-Young with the next node, Moreau between the node's proximal and the next node's proximal.
+    xs: primal points (elements), ys: dual points; node k lives on the primal side for even k."""
+    for k, nd in enumerate(nodes):
+        pts = xs if k % 2 == 0 else ys
+        oth = ys if k % 2 == 0 else xs
+        det = dict(det0, node=names[k])
+        ref = refs[k] if k < len(refs) else None
+        for i, z in enumerate(pts):
+            vz = _call(nd, z)
+            if ref is not None and vz is not None:
+                rz = _call(ref, z)
+                if rz is not None:
+                    _rel(res, sigd, dict(det, at=i), 'chain-value', 'eq', vz, rz)
+            if ref is not None:
+                for s in (0.5, 2.0):
+                    a, b = _prox(nd, s, z), _prox(ref, s, z)
+                    if a is not None and b is not None:
+                        _rel(res, sigd, dict(det, at=i, sigma=s), 'chain-proximal', 'eq', float((a - b).norm()), 0.0)
+                try:
+                    ga, gb = nd.gradient(z), ref.gradient(z)
+                    if np.all(np.isfinite(fu.flat(ga))) and np.all(np.isfinite(fu.flat(gb))):
+                        _rel(res, sigd, dict(det, at=i), 'chain-gradient', 'eq', float((ga - gb).norm()), 0.0)
+                except Exception:
+                    pass
+            if k + 1 < len(nodes):
+                nx = nodes[k + 1]
+                if vz is not None:
+                    for j, w in enumerate(oth[:3]):
+                        vw = _call(nx, w)
+                        if vw is not None:
+                            _rel(res, sigd, dict(det, at=(i, j)), 'fenchel-young-inequality', 'ge', vz + vw, float(inner(z, w)))
+                for s in (0.5, 2.0):
+                    a, b = _prox(nd, s, z), _prox(nx, 1.0 / s, z / s)
+                    if a is not None and b is not None:
+                        _rel(res, sigd, dict(det, at=i, sigma=s), 'moreau', 'eq', float((a + s * b - z).norm()), 0.0)
+
+
+def walk_chain(B, xqs, yqs, res, stage, sp, f, space_name):
+    """Class-based catalogue program: f -> f* -> f** -> f***; f** against f and f*** against f* (values, proximals),
+    Fenchel-Young and Moreau at every node."""
+    nodes = chain_nodes(B.func)
+    if len(nodes) < 3:
+        return
+    refs = [None, None, nodes[0], nodes[1]]
+    xs = [B.el(fu.frv(q)) for q in xqs]
+    ys = [B.el(fu.frv(q)) for q in yqs]
+    sigd = fu.signature(sp, f, '')
+    chain_relations(nodes, refs, xs, ys, lambda a, b: a.inner(b), res, sigd,
+                    {'stage': stage + ':chain', 'sp': sp, 'f': f, 'xs': xqs, 'ys': yqs, 'layout': B.layout})
+
+
+def user_recipes():
+    """User-built functionals (public factory odl.solvers.simple_functional) assembled from the exact callables of a
+    known conjugate pair, and the default conjugate object, on one- and multi-axis spaces."""
+    import odl
+    S = fu.S
+    out = []
+    spaces = [('rn3', lambda: odl.rn(3)), ('rn(1,4)w', lambda: odl.rn((1, 4), weighting=4.0)),
+              ('discr(2,2)', lambda: odl.uniform_discr([0, 0], [4, 1], (2, 2)))]
+    bases = [('half-L2sq', lambda X: 0.5 * S.L2NormSquared(X)), ('L1', lambda X: S.L1Norm(X)),
+             ('Huber', lambda X: S.Huber(X, 0.5)), ('2*L2', lambda X: 2.0 * S.L2Norm(X)),
+             ('KL', lambda X: S.KullbackLeibler(X, prior=X.element(np.arange(1, X.size + 1, dtype=float).reshape(X.shape))))]
+    for snm, mkX in spaces:
+        for bnm, mkg in bases:
+            out.append(('simple_functional', '%s on %s' % (bnm, snm), lambda mkX=mkX, mkg=mkg: _user(mkX(), mkg, True)))
+        for bnm, mkg in bases[1:4]:
+            out.append(('FunctionalDefaultConvexConjugate', '%s on %s' % (bnm, snm),
+                        lambda mkX=mkX, mkg=mkg: _user(mkX(), mkg, False)))
+    return out
+
+
+def _user(X, mkg, simple):
+    S = fu.S
+    g = mkg(X)
+    gc = g.convex_conj
+
+    def opt(obj, name):
+        try:
+            return getattr(obj, name)
+        except Exception:
+            return None
+    if simple:
+        sf = S.simple_functional(X, fcall=lambda x: g(x), grad=opt(g, 'gradient'), prox=g.proximal,
+                                 grad_lip=g.grad_lipschitz, convex_conj_fcall=lambda y: gc(y),
+                                 convex_conj_grad=opt(gc, 'gradient'), convex_conj_prox=gc.proximal,
+                                 convex_conj_grad_lip=gc.grad_lipschitz)
+        nodes = chain_nodes(sf, 4)
+        refs = [g, gc, g, gc]
+    else:
+        from odl.solvers.functional.functional import FunctionalDefaultConvexConjugate
+        d = FunctionalDefaultConvexConjugate(g)
+        nodes = [d] + chain_nodes(d.convex_conj, 3)
+        refs = [gc, g, gc, g]
+    return X, nodes, refs
+
+
+def user_program(arg):
+    idx, seed, npts = arg
+    name, option, mk = user_recipes()[idx]
+    res = _new_res()
+    X, nodes, refs = mk()
+    res['classes'] |= {name} | set(type(n).__name__ for n in nodes)
+    rnd = _rnd(name + option, seed)
+    N = X.size
+    pos = option.startswith('KL')
+    mkel = lambda v: X.element(np.asarray(v, dtype=float).reshape(X.shape))
+    raw = [[3.0 if i % 2 == 0 else -4.0 for i in range(N)], [(i + 1) / 2.0 for i in range(N)], [0.0] * N] + \
+          [[rnd.randint(-8, 8) / 4.0 for _ in range(N)] for _ in range(npts)]
+    xs = [mkel([abs(v) + 0.25 for v in r] if pos else r) for r in raw]
+    ys = [mkel([min(v, 0.75) for v in r] if pos else r) for r in ([[0.0] * N, [0.5] * N, [(-1.0) ** i * 0.25 for i in range(N)]] +
+                                                                  [[rnd.randint(-4, 4) / 4.0 for _ in range(N)] for _ in range(npts)])]
+    first_dual = name.startswith('FunctionalDefault')
+    if first_dual:
+        xs, ys = ys, xs
+    sigd = {'leaf': name, 'ops': name, 'option': option, 'space': 'opaque'}
+    chain_relations(nodes, refs, xs, ys, lambda a, b: a.inner(b), res, sigd,
+                    {'stage': 'user', 'recipe': idx, 'name': name, 'option': option,
+                     'sp': {'kind': 'opaque', 'm': 1, 'n': N, 'W': []}, 'f': mkf(name)})
+    return res
+
+
+def klce_program(arg):
+    """Boundary data of the KL cross-entropy pair (relational): x with ZERO entries (0 log 0 = 0), the conjugate at
+    y = f.gradient(x), biconjugate values on the boundary."""
+    idx, seed = arg
+    import odl
+    S = fu.S
+    res = _new_res()
+    X = [odl.rn(3), odl.uniform_discr([0, 0], [2, 1.5], (1, 3)), odl.rn(3, weighting=4.0)][idx]
+    mkel = lambda v: X.element(np.asarray(v, dtype=float).reshape(X.shape))
+    sigd = {'leaf': 'KullbackLeiblerCrossEntropy', 'ops': 'KullbackLeiblerCrossEntropy', 'option': str(X)[:24], 'space': 'opaque'}
+    det0 = {'stage': 'klce', 'recipe': idx, 'sp': {'kind': 'opaque', 'm': 1, 'n': 3, 'W': []}, 'f': mkf('KullbackLeiblerCrossEntropy')}
+    for prior in ([1.0, 2.0, 0.5], None):
+        f = S.KullbackLeiblerCrossEntropy(X, prior=mkel(prior)) if prior else S.KullbackLeiblerCrossEntropy(X)
+        res['classes'] |= {type(f).__name__, type(f.convex_conj).__name__}
+        nodes = chain_nodes(f, 4)
+        xs = [mkel(v) for v in ([1.0, 2.0, 0.5], [2.0, 0.0, 1.0], [0.0, 0.0, 3.0], [4.0, 1.0, 0.25])]
+        ys = [mkel(v) for v in ([0.0, 0.0, 0.0], [0.5, -1.0, 0.25], [1.0, 1.0, -2.0])]
+        chain_relations(nodes, [None, None, nodes[0], nodes[1]], xs, ys, lambda a, b: a.inner(b), res, sigd,
+                        dict(det0, prior=str(prior)))
+        for i, x in enumerate(xs):            # equality at the gradient (interior points only: log is finite there)
+            if not np.all(fu.flat(x) > 0):
+                continue
+            y = f.gradient(x)
+            _rel(res, sigd, dict(det0, node='f', at=i, prior=str(prior)), 'fenchel-young-equality', 'eq',
+                 float(f(x)) + float(nodes[1](y)), float(x.inner(y)))
+    return res
 
 
 # ------------------------------------------------------------------ parametrised conjugate pairs (relational)
@@ -529,6 +735,14 @@ class _El(object):
     def __init__(self, el):
         self.el = el
 
+def driver_jobs(seed, quick):
+    dprogs = driver_programs(quick, random.Random(seed * 7919 + 11))
+    return [(driver_program, [(spd, f, seed, 2 if quick else 6, i) for i, (spd, f) in enumerate(dprogs)]),
+            (pair_program, [(i, seed, 2 if quick else 8) for i in range(len(pair_recipes()))]),
+            (user_program, [(i, seed, 2 if quick else 6) for i in range(len(user_recipes()))]),
+            (klce_program, [(i, seed) for i in range(3)])]
+
+
 # ------------------------------------------------------------------ check
 def run(ctx):
     quick = ctx.tier == 'quick'
@@ -565,8 +779,7 @@ def run(ctx):
             progs.append(r)
     ctx.extra['programs_exported'] = len(progs)
     ctx.extra['programs_by_outermost_rule'] = fu.by_rule(progs)       # every action of the machine is exercised
-    drnd = random.Random(ctx.seed * 7919 + 11)
-    dprogs = driver_programs(quick, drnd)
+    dprogs = driver_jobs(ctx.seed, quick)[0][1]
     sink = fu.EventSink(ctx, 'c08')
     classes = set()
     tot = {'noconj': 0, 'nomoreau': 0, 'evaluable': 0, 'n': 0}
@@ -586,12 +799,13 @@ def run(ctx):
             if len(ctx.samples) < 5:
                 ctx.sample(s)
     with mp.Pool(min(14, os.cpu_count() or 4)) as pool:
+        for i, r in enumerate(progs):
+            r['idx'] = i
         for o in pool.imap(replay_program, [(r, ctx.seed, quick) for r in progs], chunksize=4):
             absorb(o)
-        for o in pool.imap(driver_program, [(spd, f, ctx.seed, 2 if quick else 6) for spd, f in dprogs], chunksize=4):
-            absorb(o)
-        for o in pool.imap(pair_program, [(i, ctx.seed, 2 if quick else 8) for i in range(len(pair_recipes()))]):
-            absorb(o)
+        for fn, args in driver_jobs(ctx.seed, quick):
+            for o in pool.imap(fn, args, chunksize=2):
+                absorb(o)
     stage['replay_and_driver'] = round(time.time() - t0 - stage['tlc_model_export'], 1)
     ctx.traces += tot['n']
     ctx.extra['programs_without_convex_conj'] = tot['noconj']
